@@ -29,7 +29,7 @@ TIERS = {
 REQUIRED_PROBES = {
     "quick": ["probe.fit_end_checked", "probe.roundtrip_checked", "probe.instance_name_differs_from_kind"],
     "thorough": ["probe.fit_end_checked", "probe.roundtrip_checked", "probe.instance_name_differs_from_kind", "probe.fit_ended_in_burn_in", "probe.fit_with_annealing",
-                 "probe.single_iteration_fit", "probe.unicode_features", "probe.numeric_looking_features", "probe.handwritten_parameters", "probe.fitted_parameters_roundtrip"],
+                 "probe.single_iteration_fit", "probe.unicode_features", "probe.numeric_looking_features", "probe.handwritten_parameters", "probe.fitted_parameters_roundtrip", "probe.parameters_updated_in_place"],
 }
 DESCRIBE = {
     "rule": "fit-end plans: one whole real fit (1-20 iterations; ending inside burn-in, with annealing, single iteration...) whose final model is checked: population variables == "
@@ -61,7 +61,7 @@ def make_plan(seed: int, tier: str) -> dict:
     pool = st.choice(ac.FEATURE_NAME_POOLS)
     return {"seed": seed, "tier": tier, "engine": "apisim_c12", "type": "roundtrip", "kind": kind, "nf": nf,
             "features": pool[:nf], "name": (st.choice(ac.INSTANCE_NAMES) if st.bernoulli(0.3) else None), "fitted": st.bernoulli(0.3), "mseed": st.u64() & 0xFFFFFFFF,
-            "source_dimension": st.randint(1, 3)}
+            "source_dimension": st.randint(1, 3), "update_seed": (st.randint(1, 10 ** 6) if st.bernoulli(0.3) else None)}
 
 
 def wv(t):
@@ -181,6 +181,19 @@ def run_roundtrip(plan, out, C, log):
         except Exception as e:
             out["discarded"] = f"setup:{type(e).__name__}"
             return
+        if plan.get("update_seed"):
+            # parameters written by hand into the live object (load_parameters: "instantiate or update"), then the same round trip
+            upd = ac.handwritten_settings(Stream(plan["update_seed"], "update"), kind, nf, features=feats, source_dimension=plan["source_dimension"])
+            try:
+                with ac.quiet():
+                    model.load_parameters(ac.copy_settings(upd)["parameters"])
+                C["probe.parameters_updated_in_place"] += 1
+            except Exception as e:
+                violation(out, "roundtrip_completes", f"load_parameters_raised:{type(e).__name__}", f"update: {e}")
+                return
+            check_fit_end(model, kind, out, C, f"after load_parameters kind={kind}")
+            if out["violations"]:
+                return
         p1, p2 = os.path.join(d, "m1.json"), os.path.join(d, "m2.json")
         where = f"kind={kind} nf={nf} name={name!r} features={feats} fitted={plan['fitted']}"
         try:
